@@ -557,7 +557,7 @@ pub fn structural(ctx: &Ctx, st: &mut Stats) {
     }
     // one very long text section per text-scanning mode (C02, C04, C06, C09, C10)
     if matches!(prop, "C02" | "C04" | "C06" | "C09" | "C10") {
-        for k in (ctx.shard..if ctx.tier == Tier::Quick { 27 } else { 108 }).step_by(ctx.nshards) {
+        for k in (ctx.shard..if ctx.tier == Tier::Quick { 30 } else { 120 }).step_by(ctx.nshards) {
             let mut rr = Rng::derive(ctx.seed, k as u64, 3277, 1);
             let s = tg::long_section_case(&mut rr, k);
             structural_one(prop, st, &s, Src::Family);
